@@ -115,6 +115,162 @@ fn gcd_i128(a: i128, b: i128) -> i128 {
     a
 }
 
+const SIGNED: [&str; 6] = ["i8", "i16", "i32", "i64", "i128", "isize"];
+
+/// sign and 256-bit magnitude of a product of two i128 (little-endian 64-bit limbs): the check a*x + b*y = c must be exact
+/// for the i128 instantiation too, where the products do not fit any primitive type
+#[derive(Clone, Copy, PartialEq, Eq, Debug)]
+struct Wide {
+    neg: bool,
+    mag: [u64; 4],
+}
+fn wide_mul(a: i128, b: i128) -> Wide {
+    let (ua, ub) = (a.unsigned_abs(), b.unsigned_abs());
+    let al = [ua as u64, (ua >> 64) as u64];
+    let bl = [ub as u64, (ub >> 64) as u64];
+    let mut mag = [0u64; 4];
+    for i in 0..2 {
+        let mut carry: u128 = 0;
+        for j in 0..2 {
+            let cur = mag[i + j] as u128 + al[i] as u128 * bl[j] as u128 + carry;
+            mag[i + j] = cur as u64;
+            carry = cur >> 64;
+        }
+        mag[i + 2] = (mag[i + 2] as u128 + carry) as u64;
+    }
+    Wide { neg: (a < 0) != (b < 0) && mag != [0; 4], mag }
+}
+fn mag_cmp(a: &[u64; 4], b: &[u64; 4]) -> std::cmp::Ordering {
+    for i in (0..4).rev() {
+        if a[i] != b[i] {
+            return a[i].cmp(&b[i]);
+        }
+    }
+    std::cmp::Ordering::Equal
+}
+fn wide_add(a: Wide, b: Wide) -> Wide {
+    if a.neg == b.neg {
+        let mut mag = [0u64; 4];
+        let mut carry = 0u128;
+        for i in 0..4 {
+            let cur = a.mag[i] as u128 + b.mag[i] as u128 + carry;
+            mag[i] = cur as u64;
+            carry = cur >> 64;
+        }
+        return Wide { neg: a.neg, mag };
+    }
+    // opposite signs: larger magnitude minus smaller
+    let (big, small) = if mag_cmp(&a.mag, &b.mag) == std::cmp::Ordering::Less { (b, a) } else { (a, b) };
+    let mut mag = [0u64; 4];
+    let mut borrow = 0i128;
+    for i in 0..4 {
+        let mut cur = big.mag[i] as i128 - small.mag[i] as i128 - borrow;
+        borrow = 0;
+        if cur < 0 {
+            cur += 1i128 << 64;
+            borrow = 1;
+        }
+        mag[i] = cur as u64;
+    }
+    Wide { neg: big.neg && mag != [0; 4], mag }
+}
+/// a*x + b*y == c, exactly
+fn solves(a: i128, b: i128, c: i128, x: i128, y: i128) -> bool {
+    wide_add(wide_mul(a, x), wide_mul(b, y)) == wide_mul(c, 1)
+}
+
+trait Num: rlib_num_traits::Integer + Copy + std::fmt::Display + TryFrom<i128> + Into<i128> {}
+impl<T: rlib_num_traits::Integer + Copy + std::fmt::Display + TryFrom<i128> + Into<i128>> Num for T {}
+
+fn conv<T: TryFrom<i128>>(v: &[i128]) -> Option<Vec<T>> {
+    v.iter().map(|z| T::try_from(*z).ok()).collect()
+}
+fn run_egcd<T: Num>(v: &[i128]) -> String {
+    let t: Vec<T> = match conv(v) {
+        Some(t) => t,
+        None => return out1("INVALID"),
+    };
+    match catch(|| egcd(t[0], t[1], t[2])) {
+        Err(e) => out1(&e),
+        Ok(None) => out1("none"),
+        Ok(Some((x, y))) => {
+            let ok = solves(v[0], v[1], v[2], x.into(), y.into());
+            out2(&format!("some {} {}", x, y), if ok { "solution" } else { "bad-solution" })
+        }
+    }
+}
+fn run_crt<T: Num + std::ops::Neg<Output = T>>(v: &[i128]) -> String {
+    let t: Vec<T> = match conv(v) {
+        Some(t) => t,
+        None => return out1("INVALID"),
+    };
+    match catch(|| crt(t[0], t[1], t[2], t[3])) {
+        Err(e) => out1(&e),
+        Ok(None) => out1("none"),
+        Ok(Some(x)) => {
+            let (a1, m1, a2, m2, x): (i128, i128, i128, i128, i128) = (v[0], v[1], v[2], v[3], x.into());
+            let ok = m1 > 0 && m2 > 0 && 0 <= x && {
+                let g = gcd_i128(m1, m2);
+                // x < lcm (an lcm beyond i128 is larger than any x)
+                (m1 / g).checked_mul(m2).map_or(true, |l| x < l)
+            } && x.checked_sub(a1).map_or(false, |d| d.rem_euclid(m1) == 0)
+                && x.checked_sub(a2).map_or(false, |d| d.rem_euclid(m2) == 0);
+            out2(&format!("some {}", x), if ok { "solution" } else { "bad-solution" })
+        }
+    }
+}
+// `Into<i128>` is not implemented for isize: it gets its own two runners below
+fn run_typed(op: &str, ty: &str, v: &[i128]) -> String {
+    match (op, ty) {
+        ("egcd", "i8") => run_egcd::<i8>(v),
+        ("egcd", "i16") => run_egcd::<i16>(v),
+        ("egcd", "i32") => run_egcd::<i32>(v),
+        ("egcd", "i64") => run_egcd::<i64>(v),
+        ("egcd", "i128") => run_egcd::<i128>(v),
+        ("egcd", "isize") => run_egcd_isize(v),
+        ("crt", "i8") => run_crt::<i8>(v),
+        ("crt", "i16") => run_crt::<i16>(v),
+        ("crt", "i32") => run_crt::<i32>(v),
+        ("crt", "i64") => run_crt::<i64>(v),
+        ("crt", "i128") => run_crt::<i128>(v),
+        ("crt", "isize") => run_crt_isize(v),
+        _ => out1("INVALID"),
+    }
+}
+fn run_egcd_isize(v: &[i128]) -> String {
+    let t: Vec<isize> = match conv(v) {
+        Some(t) => t,
+        None => return out1("INVALID"),
+    };
+    match catch(|| egcd(t[0], t[1], t[2])) {
+        Err(e) => out1(&e),
+        Ok(None) => out1("none"),
+        Ok(Some((x, y))) => {
+            let ok = solves(v[0], v[1], v[2], x as i128, y as i128);
+            out2(&format!("some {} {}", x, y), if ok { "solution" } else { "bad-solution" })
+        }
+    }
+}
+fn run_crt_isize(v: &[i128]) -> String {
+    let t: Vec<isize> = match conv(v) {
+        Some(t) => t,
+        None => return out1("INVALID"),
+    };
+    match catch(|| crt(t[0], t[1], t[2], t[3])) {
+        Err(e) => out1(&e),
+        Ok(None) => out1("none"),
+        Ok(Some(x)) => {
+            let (a1, m1, a2, m2, x): (i128, i128, i128, i128, i128) = (v[0], v[1], v[2], v[3], x as i128);
+            let ok = m1 > 0 && m2 > 0 && 0 <= x && {
+                let g = gcd_i128(m1, m2);
+                (m1 / g).checked_mul(m2).map_or(true, |l| x < l)
+            } && (x - a1).rem_euclid(m1) == 0
+                && (x - a2).rem_euclid(m2) == 0;
+            out2(&format!("some {}", x), if ok { "solution" } else { "bad-solution" })
+        }
+    }
+}
+
 fn run_case(line: &str) -> String {
     let toks: Vec<&str> = line.split_whitespace().collect();
     let (op, ty) = match toks[0].split_once(':') {
@@ -136,6 +292,19 @@ fn run_case(line: &str) -> String {
             }
         }
         return out1(&raw);
+    }
+    if (op == "egcd" || op == "crt") && !ty.is_empty() {
+        let mut v: Vec<i128> = Vec::new();
+        for t in &toks[1..] {
+            match t.parse::<i128>() {
+                Ok(z) => v.push(z),
+                Err(_) => return out1("INVALID"),
+            }
+        }
+        if !SIGNED.contains(&ty) || v.len() != if op == "egcd" { 3 } else { 4 } {
+            return out1("INVALID");
+        }
+        return run_typed(op, ty, &v);
     }
     let mut nums: Vec<i128> = Vec::new();
     for t in &toks[1..] {
@@ -337,9 +506,258 @@ fn gcdlcm_sample(rng: &mut SplitMix64, ty: &str, emit: &mut dyn FnMut(String), s
     }
 }
 
+fn smax(ty: &str) -> i128 {
+    ty_info(ty).1 as i128
+}
+fn wide_le(a: Wide, b: Wide) -> bool {
+    // both non-negative here
+    mag_cmp(&a.mag, &b.mag) != std::cmp::Ordering::Greater
+}
+/// the property's domain for `egcd::<ty>` as the harness computes it on its own (used for the generator statistics only;
+/// the verdict uses the driver's `domEgcd`): |operands| <= MAX, not both zero, (|c|/g)*max(|a|,|b|) <= g*MAX when g | c
+fn dom_egcd(ty: &str, a: i128, b: i128, c: i128) -> bool {
+    let m = smax(ty);
+    if [a, b, c].iter().any(|z| *z == i128::MIN || z.abs() > m) || (a == 0 && b == 0) {
+        return false;
+    }
+    let g = gcd_i128(a, b);
+    if c.abs() % g != 0 {
+        return true;
+    }
+    wide_le(wide_mul(c.abs() / g, a.abs().max(b.abs())), wide_mul(g, m))
+}
+fn dom_crt(ty: &str, a1: i128, m1: i128, a2: i128, m2: i128) -> bool {
+    let m = smax(ty);
+    if !(1 <= m1 && m1 <= m && 1 <= m2 && m2 <= m && 0 <= a1 && a1 < m1 && 0 <= a2 && a2 < m2) {
+        return false;
+    }
+    let g = gcd_i128(m1, m2);
+    let d = (a2 - a1).abs();
+    if d % g != 0 {
+        return true;
+    }
+    wide_le(wide_mul(d / g, m1.max(m2)), wide_mul(g, m))
+        && (m2 / g).checked_mul(2).map_or(false, |v| v <= m)
+        && (m1 / g).checked_mul(m2).map_or(false, |l| l <= m)
+}
+fn rand_i(rng: &mut SplitMix64, lo: i128, hi: i128) -> i128 {
+    if hi <= lo {
+        return lo;
+    }
+    lo + range_u128(rng, 0, (hi - lo) as u128) as i128
+}
+/// magnitude in [1, lim], every size class equally likely
+fn log_uniform(rng: &mut SplitMix64, lim: i128) -> i128 {
+    let bits = 128 - (lim.max(1) as u128).leading_zeros() as u64;
+    let hi = ((1u128 << (rng.below(bits) + 1)) - 1).min(lim.max(1) as u128) as i128;
+    rand_i(rng, (hi / 2).max(1), hi)
+}
+fn sgn(rng: &mut SplitMix64, v: i128) -> i128 {
+    if rng.chance(1, 2) { -v } else { v }
+}
+fn isqrt_i(n: i128) -> i128 {
+    isqrt(n.max(0) as u128) as i128
+}
+fn icbrt(n: i128) -> i128 {
+    let mut x = (n as f64).cbrt() as i128;
+    while x > 0 && x.checked_mul(x).and_then(|v| v.checked_mul(x)).map_or(true, |v| v > n) {
+        x -= 1;
+    }
+    x.max(1)
+}
+/// a residue pair for (m1, m2): compatible by construction half of the time, extreme differences preferred
+fn residues(rng: &mut SplitMix64, m1: i128, m2: i128) -> (i128, i128) {
+    let a1 = match rng.below(4) {
+        0 => 0,
+        1 => m1 - 1,
+        _ => rand_i(rng, 0, m1 - 1),
+    };
+    let a2 = if rng.chance(1, 2) {
+        let g = gcd_i128(m1, m2);
+        let base = a1 % g;
+        let kmax = (m2 - 1 - base).max(0) / g;
+        let k = match rng.below(3) {
+            0 => 0,
+            1 => kmax,
+            _ => rand_i(rng, 0, kmax),
+        };
+        (base + k * g).min(m2 - 1)
+    } else {
+        match rng.below(3) {
+            0 => 0,
+            1 => m2 - 1,
+            _ => rand_i(rng, 0, m2 - 1),
+        }
+    };
+    (a1, a2)
+}
+/// One `egcd:ty` / `crt:ty` case at the overflow threshold of a signed type: the bound of the coefficients
+/// (|c|/g)*max(|a|,|b|)/g, the lcm, 2*(m2/g) land just inside and just outside MAX; moduli between the cube root and the
+/// square root of MAX (where a product of the un-reduced solver output by a modulus would leave the type) are a family of their own.
+fn typed_edge_case(rng: &mut SplitMix64, ty: &str, st: &mut Stats) -> String {
+    let m = smax(ty);
+    if rng.chance(2, 5) {
+        // ---- egcd
+        let g = if rng.chance(1, 2) { 1 } else { 1 + rng.below(6) as i128 };
+        let big = log_uniform(rng, m / g).max(1);
+        let small = match rng.below(3) {
+            0 => rand_i(rng, 0, big),
+            1 => (big - 1 - rng.below(3) as i128).max(0),
+            _ => log_uniform(rng, big),
+        };
+        let (a, b) = if rng.chance(1, 2) { (big * g, small * g) } else { (small * g, big * g) };
+        let gg = gcd_i128(a, b).max(1);
+        let mx = a.abs().max(b.abs()).max(1);
+        // largest K with K*mx <= gg*MAX, capped by |c| = gg*K <= MAX
+        let kmax = {
+            let by_bound = if gg >= mx { m } else { ((m / mx) * gg).saturating_add((m % mx).checked_mul(gg).map_or(0, |v| v / mx)).min(m) };
+            by_bound.min(m / gg)
+        };
+        let k = match rng.below(5) {
+            0 => kmax,
+            1 => (kmax - rng.below(3) as i128).max(0),
+            2 => kmax.saturating_add(1 + rng.below(2) as i128).min(m / gg),
+            3 => rand_i(rng, 0, kmax),
+            _ => log_uniform(rng, kmax.max(1)),
+        };
+        let mut c = gg * k;
+        if rng.chance(1, 6) {
+            c = c.saturating_add(1).min(m); // usually not divisible: no solution
+        }
+        let (a, b, c) = (sgn(rng, a), sgn(rng, b), sgn(rng, c));
+        let line = format!("egcd:{} {} {} {}", ty, a, b, c);
+        st.bump(&format!("egcd_edge_{}_{}", if dom_egcd(ty, a, b, c) { "in_domain" } else { "outside_domain" }, ty));
+        if dom_egcd(ty, a, b, c) && c % gg == 0 && wide_le(wide_mul(gg, m / 2), wide_mul(c.abs() / gg, mx)) {
+            st.bump(&format!("egcd_edge_bound_in_top_bit_{}", ty));
+        }
+        return line;
+    }
+    // ---- crt
+    let (m1, m2, fam): (i128, i128, &str) = match rng.below(5) {
+        0 | 1 => {
+            // between the cube root and sqrt(MAX/2): m1*m2 fits with room, m1*m2*max(m1,m2) does not
+            let lo = icbrt(m).max(2);
+            let hi = isqrt_i(m / 2).max(lo);
+            (rand_i(rng, lo, hi), rand_i(rng, lo, hi), "cube_to_sqrt")
+        }
+        2 => {
+            // around sqrt(MAX): the lcm itself at the threshold
+            let r = isqrt_i(m).max(2);
+            (rand_i(rng, r / 2, r + r / 2).max(1), rand_i(rng, r / 2, r + r / 2).max(1), "around_sqrt")
+        }
+        3 => {
+            // one small modulus, the other near MAX/2 or MAX/m1
+            let m1 = 1 + rng.below(16) as i128;
+            let top = match rng.below(3) {
+                0 => m / 2,
+                1 => m / m1,
+                _ => m,
+            };
+            let m2 = (top.saturating_add(1) - rng.below(4) as i128).clamp(1, m);
+            if rng.chance(1, 2) { (m1, m2, "skewed") } else { (m2, m1, "skewed") }
+        }
+        _ => {
+            // a large shared factor: lcm = g*p*q at the threshold
+            let p = 1 + rng.below(12) as i128;
+            let q = 1 + rng.below(12) as i128;
+            let gtop = (m / (p * q)).max(1);
+            let g = match rng.below(3) {
+                0 => gtop - (rng.below(3) as i128).min(gtop - 1),
+                1 => gtop.saturating_add(1 + rng.below(2) as i128).min(m / p.max(q)),
+                _ => rand_i(rng, 1, gtop),
+            };
+            ((g * p).clamp(1, m), (g * q).clamp(1, m), "shared_factor")
+        }
+    };
+    let (a1, a2) = residues(rng, m1, m2);
+    let ind = dom_crt(ty, a1, m1, a2, m2);
+    st.bump(&format!("crt_edge_{}_{}", if ind { "in_domain" } else { "outside_domain" }, ty));
+    st.bump(&format!("crt_edge_family_{}", fam));
+    if ind && (a2 - a1) % gcd_i128(m1, m2) == 0 {
+        st.bump(&format!("crt_edge_in_domain_solvable_{}", ty));
+        if m1.checked_mul(m2).and_then(|v| v.checked_mul(m1.max(m2))).map_or(true, |v| v > m) {
+            // a solver output multiplied by a modulus BEFORE its reduction modulo m2/g would not fit
+            st.bump(&format!("crt_in_domain_but_m1*m2*max_overflows_{}", ty));
+        }
+    }
+    format!("crt:{} {} {} {} {}", ty, a1, m1, a2, m2)
+}
+
 fn gen(args: &Args, emit: &mut dyn FnMut(String), st: &mut Stats) {
     let thorough = args.tier == "thorough";
+    // the debug profile (debug-assertions on) re-runs a reduced stream of the same families
+    let lite = args.extra.get("profile").map_or(false, |p| p == "debug");
     let mut rng = SplitMix64::new(args.seed ^ 0xC11);
+    // (0) egcd / crt at every signed instantiation: small scope, the whole neighbourhood of the i8 threshold, and the
+    //     overflow threshold of each type
+    for ty in SIGNED {
+        let k: i128 = if lite { 3 } else if thorough { 8 } else { 5 };
+        for a in -k..=k {
+            for b in -k..=k {
+                for c in -k..=k {
+                    emit(format!("egcd:{} {} {} {}", ty, a, b, c));
+                    st.bump(&format!("egcd_small_scope_{}", ty));
+                }
+            }
+        }
+        let ml: i128 = if lite { 6 } else if thorough { 16 } else { 10 };
+        for m1 in 1..=ml {
+            for m2 in 1..=ml {
+                for a1 in 0..m1 {
+                    for a2 in 0..m2 {
+                        emit(format!("crt:{} {} {} {} {}", ty, a1, m1, a2, m2));
+                        st.bump(&format!("crt_small_scope_{}", ty));
+                    }
+                }
+            }
+        }
+    }
+    {
+        // i8: uniformly over the whole type for egcd; for crt every pair of moduli whose lcm is near or below 127
+        let n = if lite { 4_000 } else if thorough { 1_000_000 } else { 16_000 };
+        for _ in 0..n {
+            let (a, b, c) = (rand_i(&mut rng, -127, 127), rand_i(&mut rng, -127, 127), rand_i(&mut rng, -127, 127));
+            let c = if rng.chance(1, 2) { let g = gcd_i128(a, b); if g != 0 { c / g * g } else { c } } else { c };
+            st.bump(if dom_egcd("i8", a, b, c) { "egcd_i8_whole_type_in_domain" } else { "egcd_i8_whole_type_outside_domain" });
+            emit(format!("egcd:i8 {} {} {}", a, b, c));
+        }
+        let keep: u64 = if lite { 300 } else if thorough { 4 } else { 60 };
+        for m1 in 1..=127i128 {
+            for m2 in 1..=127i128 {
+                let l = m1 / gcd_i128(m1, m2) * m2;
+                if l > 170 {
+                    continue;
+                }
+                for a1 in 0..m1 {
+                    for a2 in 0..m2 {
+                        if rng.below(keep) != 0 {
+                            continue;
+                        }
+                        st.bump(if dom_crt("i8", a1, m1, a2, m2) { "crt_i8_threshold_in_domain" } else { "crt_i8_threshold_outside_domain" });
+                        emit(format!("crt:i8 {} {} {} {}", a1, m1, a2, m2));
+                    }
+                }
+            }
+        }
+    }
+    let n = if lite { 6_000 } else if thorough { 900_000 } else { 36_000 };
+    for i in 0..n {
+        let ty = SIGNED[(i % 6) as usize];
+        let line = typed_edge_case(&mut rng, ty, st);
+        emit(line);
+    }
+    if lite {
+        // the untyped / gcd / lcm families below: a reduced pass
+        for _ in 0..6_000 {
+            let ty = *rng.pick(&TYPES);
+            gcdlcm_sample(&mut rng, ty, emit, st);
+        }
+        for c in -2..=2 {
+            emit(format!("egcd 0 0 {}", c));
+        }
+        emit("lcm:i64 0 0".to_string());
+        return;
+    }
     // (1) exhaustive small scope
     let cube: i64 = if thorough { 16 } else { 12 };
     for a in -cube..=cube {
